@@ -65,7 +65,7 @@ macro_rules! db_harness {
 //@ mem: 14
 //@ covers: none
 //@ unwindset: mmap_append=170; memcmp.0=20
-//@ cbmc: --max-field-sensitivity-array-size 800
+//@ cbmc: --max-field-sensitivity-array-size 1100
 //@ encodes: EventStore::store_event (growth path: set_len + MmapAppend::resize), EventStore::get_event_by_offset
 //@ bounds: fresh store, an arbitrary 152-byte event, a reference to it, then a second arbitrary event whose store enlarges the file; environment contract: MmapAppend::resize may move the mapping (mmap-append 0.2.0 calls mremap with MREMAP_MAYMOVE), modelled as a fresh buffer. The event's bytes are unchanged, but its address is not: the earlier reference dangles
 //@ assumes: the mremap(MAYMOVE) contract: the kernel is free to return a different address
@@ -77,7 +77,7 @@ db_harness!(c15_ref_across_growth_maymove, ref_across_growth(false));
 //@ mem: 14
 //@ covers: none
 //@ unwindset: mmap_append=170; memcmp.0=20
-//@ cbmc: --max-field-sensitivity-array-size 800
+//@ cbmc: --max-field-sensitivity-array-size 1100
 //@ encodes: EventStore::store_event (growth path), EventStore::get_event_by_offset
 //@ bounds: the same scenario under a non-moving resize (what a fixed reservation would give): address and bytes unchanged - shows the harness itself is satisfiable and isolates the finding to the moving remap
 db_harness!(c15_ref_across_growth_inplace, ref_across_growth(true));
